@@ -405,6 +405,41 @@ func runC25(c *Ctx) {
 				}
 			}
 		}
+		if !fb {
+			// alternative: a callee returns syscall.EFBIG on the over-limit edge and the handler's error
+			// mapping can turn it into status 27
+			canMap := false
+			for _, rs := range shapes {
+				for _, v := range rs.StatusSet {
+					if v == 27 {
+						canMap = true
+					}
+				}
+			}
+			for _, fn := range p.SrcFuncs {
+				if !reach[fn] || !canMap {
+					continue
+				}
+				for _, b := range fn.Blocks {
+					r, ok := b.Instrs[len(b.Instrs)-1].(*ssa.Return)
+					if !ok || len(r.Results) == 0 {
+						continue
+					}
+					mi, ok := retVal(r, len(r.Results)-1).(*ssa.MakeInterface)
+					if !ok || !strings.HasSuffix(mi.X.Type().String(), "syscall.Errno") {
+						continue
+					}
+					if k, isC := constInt(mi.X); !isC || k != 27 {
+						continue
+					}
+					for _, f := range p.facts(b) {
+						if involvesMax(f) {
+							fb = true
+						}
+					}
+				}
+			}
+		}
 		c.verdictIf(fb, P, "fbig", "proc="+procNames[spec.proc], p.pos(h.Pos()), "NFS3ERR_FBIG on the over-limit edge", procNames[spec.proc]+" has no NFS3ERR_FBIG reply controlled by a MaxFileSize comparison")
 	}
 }
